@@ -1,10 +1,152 @@
-(* C16 — property theorems only. *)
+(* C16 — property theorems only.  Every proof is `exact <lemma>` or a closed computation (refutation witness,
+   finite generated table). *)
 From Coq Require Import List String ZArith NArith Bool.
 Import ListNotations.
 From VF Require Import C16.Model C16.Proofs.
+Local Open Scope string_scope.
+Local Open Scope list_scope.
 
-Theorem cf_split_merge_lookup : forall (kf m : obj) (k : string),
+(* ---- the custom-field mechanism (util/json) ----
+   UnmarshalWithCustomFields followed by MergeCustomFields, for any typed part that marshals to the members kf and
+   any input object m: a member the typed part emits wins; every other member of the input comes back (as the
+   float64 image of its value); nothing else appears. *)
+Theorem cf_roundtrip : forall (kf m : obj) (k : string),
   lookup (merge_cf kf (split_cf (keys kf) m)) k =
   match lookup kf k with Some v => Some v | None => option_map f64j (lookup m k) end.
 Proof. exact merge_split_lookup. Qed.
-Print Assumptions cf_split_merge_lookup.
+Print Assumptions cf_roundtrip.
+
+(* float64 decoding does not touch a value whose numbers all have magnitude <= 2^53 *)
+Theorem exact_values_untouched : forall j, exact j = true -> f64j j = j.
+Proof. exact f64j_exact. Qed.
+Print Assumptions exact_values_untouched.
+
+(* ---- credentials: ParseCredential -> MarshalJSON ----
+   FULL STATEMENT for custom top-level properties, every accepted credential, every name that is not a member of
+   rawCredential (generated list): the output holds the member iff the input does, with the float64 image of its value. *)
+Theorem vc_custom_member_roundtrip : forall m v k,
+  parse_vc (JObj m) = Some v ->
+  ~ In k (map (fun f => fst (fst f)) rawCredential_fields) ->
+  match marshal_vc v with JObj o => lookup o k | _ => None end = option_map (fun x => f64j (f64j x)) (lookup m k).
+Proof. exact vc_custom_member. Qed.
+Print Assumptions vc_custom_member_roundtrip.
+
+(* ... hence exactly preserved when its numbers are within +-2^53 (partial: the guard excludes finding #26) *)
+Theorem vc_custom_member_preserved_partial : forall m v k x,
+  parse_vc (JObj m) = Some v ->
+  ~ In k (map (fun f => fst (fst f)) rawCredential_fields) ->
+  lookup m k = Some x -> exact x = true ->
+  match marshal_vc v with JObj o => lookup o k | _ => None end = Some x.
+Proof.
+  intros m v k x Hp Hk Hl He. rewrite (vc_custom_member m v k Hp Hk), Hl. cbn.
+  rewrite (f64j_exact x He), (f64j_exact x He). reflexivity.
+Qed.
+Print Assumptions vc_custom_member_preserved_partial.
+
+(* the unguarded statement "every member of the input is in the output with the same value" is refuted:
+   (1) a number above 2^53, (2) a member named jwt, (3) a member ID after the defined member id *)
+Definition vc_skeleton (extra : obj) : json :=
+  JObj ([("@context", JArr [JStr "c"]); ("type", JStr "T"); ("id", JStr "urn:a"); ("issuer", JStr "did:i")] ++ extra).
+Definition member_of_output (j : json) (k : string) : option json :=
+  match roundtrip_vc j with Some (JObj o) => lookup o k | _ => None end.
+
+Theorem vc_all_members_preserved_refuted :
+  member_of_output (vc_skeleton [("n", JNum 9007199254740993%Z)]) "n" = Some (JNum 9007199254740992%Z) /\
+  member_of_output (vc_skeleton [("jwt", JStr "abc")]) "jwt" = None /\
+  member_of_output (vc_skeleton [("ID", JStr "urn:b")]) "id" = Some (JStr "urn:b") /\
+  member_of_output (vc_skeleton [("x", JNum 7%Z)]) "x" = Some (JNum 7%Z).
+Proof. vm_compute. repeat split. Qed.
+Print Assumptions vc_all_members_preserved_refuted.
+
+(* ---- presentations ---- *)
+Theorem vp_custom_member_roundtrip : forall w m p k,
+  parse_vp (JObj m) = Some p ->
+  ~ In k (map (fun f => fst (fst f)) rawPresentation_fields) ->
+  match marshal_vp w p with JObj o => lookup o k | _ => None end = option_map (fun x => f64j (f64j x)) (lookup m k).
+Proof. exact vp_custom_member. Qed.
+Print Assumptions vp_custom_member_roundtrip.
+
+(* repaired code (fix 3bb8b98): the serialised @context holds the string contexts followed by the object contexts *)
+Theorem vp_context_kept_fixed : forall p,
+  match marshal_vp Fixed p with JObj o => lookup o "@context" | _ => None end
+  = Some (f64j (enc_context (p_ctx p) (p_cctx p))).
+Proof. exact vp_context_kept. Qed.
+Print Assumptions vp_context_kept_fixed.
+
+(* the code as found dropped them *)
+Theorem vp_context_asis_refuted :
+  let d := JObj [("@context", JArr [JStr "c"; JObj [("k", JStr "v")]]); ("type", JStr "VerifiablePresentation")] in
+  match roundtrip_vp AsIs d with Some (JObj o) => lookup o "@context" | _ => None end = Some (JArr [JStr "c"]) /\
+  match roundtrip_vp Fixed d with Some (JObj o) => lookup o "@context" | _ => None end
+    = Some (JArr [JStr "c"; JObj [("k", JStr "v")]]).
+Proof. vm_compute. split; reflexivity. Qed.
+Print Assumptions vp_context_asis_refuted.
+
+(* ---- single-or-array forms ---- *)
+Theorem forms_roundtrip_type : forall l, dec_types (Some (enc_types l)) = Some l.
+Proof. exact types_roundtrip. Qed.
+Print Assumptions forms_roundtrip_type.
+
+Theorem forms_roundtrip_context : forall ss cs,
+  match cs with JStr _ :: _ => False | _ => True end ->
+  dec_context (Some (enc_context ss cs)) = Some (ss, map f64j cs).
+Proof. exact context_roundtrip. Qed.
+Print Assumptions forms_roundtrip_context.
+
+(* ---- key fingerprints (multibase/base58 layer outside: sampled on btcutil) ----
+   for every code of the generated multicodec table except G1G2 and every key byte string:
+   PubKeyFromFingerprint (KeyFingerprint code key) = (key, code) *)
+Theorem fingerprint_roundtrip : forall code key,
+  In code (map snd multicodec_table) -> code <> g1g2_code ->
+  fp_decode (fp_bytes code key) = Some (key, code).
+Proof. exact fp_roundtrip_table. Qed.
+Print Assumptions fingerprint_roundtrip.
+
+(* G1G2: the documented special case returns the G2 key *)
+Theorem fingerprint_g1g2_returns_g2 : forall g1 g2,
+  List.length g1 = g1_size -> List.length g2 = g2_size ->
+  fp_decode (fp_bytes g1g2_code (g1 ++ g2)) = Some (g2, g1g2_code).
+Proof. exact fp_g1g2. Qed.
+Print Assumptions fingerprint_g1g2_returns_g2.
+
+Theorem didkey_roundtrip : forall code key,
+  In code didkey_codes -> code <> g1g2_code -> didkey_decode (fp_bytes code key) = Some key.
+Proof. exact didkey_roundtrip_table. Qed.
+Print Assumptions didkey_roundtrip.
+
+(* the generated table is the multicodec registry's, every code of it is accepted by PubKeyFromDIDKey, and an
+   unknown code is refused *)
+Theorem multicodec_table_is_registry :
+  map snd multicodec_table = [0xec; 0xed; 0xeb; 0xee; 0x1200; 0x1201; 0x1202]%N /\
+  forallb (fun c => existsb (N.eqb c) didkey_codes) (map snd multicodec_table) = true /\
+  didkey_decode (fp_bytes 0xe7%N [1%N; 2%N]) = None.
+Proof. vm_compute. repeat split. Qed.
+Print Assumptions multicodec_table_is_registry.
+
+(* the member names the model serialises are the generated struct members (jwt is the envelope member) *)
+Theorem model_names_are_generated :
+  map (fun f => fst (fst f)) rawCredential_fields =
+    ["@context"; "id"; "type"; "credentialSubject"; "issuanceDate"; "expirationDate"; "proof"; "credentialStatus";
+     "issuer"; "credentialSchema"; "evidence"; "termsOfUse"; "refreshService"; "jwt"; "_sd_alg"] /\
+  map (fun f => fst (fst f)) rawPresentation_fields =
+    ["@context"; "id"; "type"; "verifiableCredential"; "holder"; "proof"; "jwt"] /\
+  map (fun f => fst (fst f)) typedID_fields = ["id"; "type"] /\
+  map (fun f => fst (fst f)) subject_fields = ["id"] /\ map (fun f => fst (fst f)) issuer_fields = ["id"].
+Proof. vm_compute. repeat split. Qed.
+Print Assumptions model_names_are_generated.
+
+(* ---- non-vacuity ---- *)
+Example vc_roundtrip_nonvacuous :
+  let d := JObj [("@context", JStr "c"); ("type", JArr [JStr "T"]); ("credentialSubject", JArr [JObj [("id", JStr "s"); ("deg", JNum 3%Z)]]);
+                 ("issuer", JObj [("id", JStr "i"); ("name", JStr "n")]); ("termsOfUse", JArr [JObj [("id", JStr "t"); ("q", JNull)]]);
+                 ("id", JStr ""); ("custom", JObj [("a", JArr [JNum 1%Z; JNull])])] in
+  option_map (fun o => jeq o
+    (JObj [("@context", JArr [JStr "c"]); ("type", JStr "T"); ("credentialSubject", JObj [("id", JStr "s"); ("deg", JNum 3%Z)]);
+           ("issuer", JObj [("id", JStr "i"); ("name", JStr "n")]); ("termsOfUse", JObj [("id", JStr "t"); ("q", JNull)]);
+           ("id", JStr ""); ("custom", JObj [("a", JArr [JNum 1%Z; JNull])])])) (roundtrip_vc d) = Some true.
+Proof. vm_compute. reflexivity. Qed.
+
+Example fingerprint_nonvacuous :
+  fp_bytes 0xed%N [7%N; 8%N] = [237%N; 1%N; 7%N; 8%N] /\ fp_bytes 0x1200%N [9%N] = [128%N; 36%N; 9%N] /\
+  fp_decode [128%N; 36%N; 9%N] = Some ([9%N], 0x1200%N).
+Proof. vm_compute. repeat split. Qed.
